@@ -430,8 +430,10 @@ def groupLoop (c : Dag) : List NodeId → Res
         | (c1, some err) => (c1, some err)
         | (c1, none) => groupLoop c1 os
 
-/-- `group_one_qubit_gates` (the `Output` list is not modified by the loop body) -/
-def groupOneQubitGates (c : Dag) : Res := c.groupLoop (dictGet c.nodeDict "Output")
+/-- `group_one_qubit_gates` (the `Output` list is not modified by the loop body; `self.node_dict["Output"]` is a
+    `KeyError` on a circuit that never had a register — known finding `group:no-registers:KeyError`) -/
+def groupOneQubitGates (c : Dag) : Res :=
+  if dictHas c.nodeDict "Output" then c.groupLoop (dictGet c.nodeDict "Output") else (c, some .key)
 
 /-! ## queries -/
 
